@@ -13,6 +13,7 @@ import (
 )
 
 func init() {
+	zzvf.Register("VF_C18_L2_Events", VF_C18_L2_Events)
 	zzvf.Register("VF_C18_L1_Adapter", VF_C18_L1_Adapter)
 	zzvf.Register("VF_C18_K1_Guards", VF_C18_K1_Guards)
 }
@@ -199,4 +200,84 @@ func VF_C18_L1_Adapter() {
 		}
 		zzvf.Assert(zzvf.ArmedTimers()+c.tq.Len() == open, "exactly-one-pending-expiry-per-open-request")
 	}
+}
+
+// VF_C18_L2_Events: an event subscription through the adapter. n messages
+// are published; the listener handles them in batches of any size (the rest
+// stays buffered in the adapter's channel); Unsubscribe is called at any
+// point, with the library's Unsubscribe succeeding or failing (connection
+// already lost). The callback sees the messages in publish order, each at
+// most once, and none after Unsubscribe has returned - whatever the library
+// call answered; a second, unrelated subscription is not affected.
+func VF_C18_L2_Events() {
+	n := zzvf.Param("msgs")
+	c := vfNewClient()
+	var seen []byte
+	var other []byte
+	us, err := c.Subscribe("event.test.model", func(subj string, data []byte, _ error) {
+		seen = append(seen, data[0])
+	})
+	zzvf.Assert(err == nil && us != nil, "subscribe-succeeds")
+	_, err2 := c.Subscribe("event.test.other", func(subj string, data []byte, _ error) {
+		other = append(other, data[0])
+	})
+	zzvf.Assert(err2 == nil, "subscribe-succeeds")
+	subs := zzvf.NatsSubs()
+	zzvf.Assert(len(subs) == 2, "harness-two-library-subscriptions")
+	sub, sub2 := subs[0].(*nats.Subscription), subs[1].(*nats.Subscription)
+	zzvf.Reach("c18l2-subscribed")
+	published, otherPublished := 0, 0
+	unsubscribed := false
+	seenAtUnsub := 0
+	for step := 0; step < 3*n+4; step++ {
+		var acts []int
+		if published < n {
+			acts = append(acts, 0)
+		}
+		if len(c.mqCh) > 0 {
+			acts = append(acts, 1)
+		}
+		if !unsubscribed {
+			acts = append(acts, 2)
+		}
+		if otherPublished < 1 {
+			acts = append(acts, 3)
+		}
+		if len(acts) == 0 {
+			break
+		}
+		switch acts[zzvf.Choose("action", len(acts))] {
+		case 0:
+			published++
+			c.mqCh <- &nats.Msg{Subject: "event.test.model.custom", Data: []byte{byte('0' + published)}, Sub: sub}
+		case 1:
+			vfPump(c)
+		case 2:
+			if zzvf.Choose("library-unsubscribe-fails", 2) == 1 {
+				zzvf.NatsFailUnsubscribe(true)
+				zzvf.Tag("library-unsubscribe-fails")
+			}
+			us.Unsubscribe()
+			zzvf.NatsFailUnsubscribe(false)
+			unsubscribed = true
+			seenAtUnsub = len(seen)
+		case 3:
+			otherPublished++
+			c.mqCh <- &nats.Msg{Subject: "event.test.other.custom", Data: []byte{'x'}, Sub: sub2}
+		}
+		if unsubscribed {
+			zzvf.Assert(len(seen) == seenAtUnsub, "no-message-reaches-the-callback-after-unsubscribe-returned")
+		}
+	}
+	vfPump(c)
+	zzvf.Reach("c18l2-drained")
+	if unsubscribed {
+		zzvf.Assert(len(seen) == seenAtUnsub, "no-message-reaches-the-callback-after-unsubscribe-returned")
+	} else {
+		zzvf.Assert(len(seen) == published, "every-message-reaches-the-callback")
+	}
+	for i := range seen {
+		zzvf.Assert(seen[i] == byte('1'+i), "messages-reach-the-callback-in-publish-order-each-once")
+	}
+	zzvf.Assert(len(other) == otherPublished, "other-subscription-unaffected")
 }
